@@ -75,6 +75,13 @@ struct Store {
 		if (count * 2 > table.n) grow();
 		*isnew = true; return i;
 	}
+	// forgets the states interned after the first c0 (used by bounded look-aheads that must leave the search frontier untouched)
+	void rollback(size_t c0) {
+		if (c0 >= count) return;
+		count = c0; keys.n = c0 * keylen; snaps.n = c0 * snaplen; hashes.n = c0;
+		memset(table.p, 0xff, table.n * 4);
+		for (size_t i = 0; i < count; ++i) { size_t s = hashes[i] & mask; while (table[s] != 0xffffffffu) s = (s + 1) & mask; table[s] = static_cast<uint32_t>(i); }
+	}
 	long find(const uint8_t* k) const {
 		uint64_t h = mix(fnv(k, keylen));
 		size_t s = h & mask;
